@@ -87,12 +87,12 @@ P = {
          "TLC-exhaustive over all trees <= 4/5 derived nodes x realloc capacities; G binding on real loggers in history order and with "
          "concurrent sibling derivation, attribute sizes chosen to leave spare capacity; second oracle With(A);call(B) = call(A++B)",
          "timestamps masked; addSource off", "5/C03"),
- "C06": ('spec/tasklane/TaskLane.tla (+TaskLaneMC, MC_*.cfg, MUT_*.cfg), spec/tasklane/TaskLaneCases.tla',
-         'TLA+ model of the tasklane protocol with explicit Go channel/select semantics (poll-and-park, rendezvous only with a parked peer, close(done) claiming parked goroutines, timer), one action per select/statement; TLC checks all interleavings incl. cancellation at every point, safety invariants and liveness under weak fairness, and rejects spec mutants; traces of the real TaskLane (verif hooks as event sources and as cancellation gates at every protocol point, quiescence by goroutine census) are validated by TLC against the statement layer',
+ "C06": ('spec/tasklane/TaskLane.tla (+TaskLaneMC, MC_*.cfg, MUT_*.cfg), spec/tasklane/TaskLaneCases.tla, proofs/tasklane/TaskLaneProof.tla (+TaskLaneInv, TaskLaneStepA-H)',
+         'TLA+ model of the tasklane protocol with explicit Go channel/select semantics (poll-and-park, rendezvous only with a parked peer, close(done) claiming parked goroutines, timer), one action per select/statement; TLC checks all interleavings incl. cancellation at every point, safety invariants and liveness under weak fairness, and rejects spec mutants; thorough tier: the safety invariants are also proved for ANY number of lanes, queue size, tasks and producers by an inductive invariant checked with the TLA+ proof system (1605 obligations); traces of the real TaskLane (verif hooks as event sources and as cancellation gates at every protocol point, quiescence by goroutine census) are validated by TLC against the statement layer',
          'AtMostOnce, NoRejectedRun, StartedOnlyIfPushed as invariants and EveryAcceptedStarts (~>) under fairness in the bounded model (2-3 lanes, Q in {0,1}, 2-3 tasks, cancel anywhere); on the real code: Start counts per task object, PushTask results, and - at stably quiescent states with the context live - every accepted task started',
          "witnessed schedules only (widened by hook gates, seeded yields, systematic scenario families); bounded model constants as stated", '5/C06'),
- "C07": ('spec/tasklane/TaskLane.tla (+TaskLaneMC, MC_*.cfg, MUT_*.cfg), spec/tasklane/TaskLaneCases.tla',
-         'TLA+ model of the tasklane protocol with explicit Go channel/select semantics (poll-and-park, rendezvous only with a parked peer, close(done) claiming parked goroutines, timer), one action per select/statement; TLC checks all interleavings incl. cancellation at every point, safety invariants and liveness under weak fairness, and rejects spec mutants; traces of the real TaskLane (verif hooks as event sources and as cancellation gates at every protocol point, quiescence by goroutine census) are validated by TLC against the statement layer',
+ "C07": ('spec/tasklane/TaskLane.tla (+TaskLaneMC, MC_*.cfg, MUT_*.cfg), spec/tasklane/TaskLaneCases.tla, proofs/tasklane/TaskLaneProof.tla (+TaskLaneInv, TaskLaneStepA-H)',
+         'TLA+ model of the tasklane protocol with explicit Go channel/select semantics (poll-and-park, rendezvous only with a parked peer, close(done) claiming parked goroutines, timer), one action per select/statement; TLC checks all interleavings incl. cancellation at every point, safety invariants and liveness under weak fairness, and rejects spec mutants; thorough tier: PostCancelReject and WaitOnlyWhenQuiet are also proved for ANY number of lanes, queue size, tasks and producers by an inductive invariant checked with the TLA+ proof system (1605 obligations); traces of the real TaskLane (verif hooks as event sources and as cancellation gates at every protocol point, quiescence by goroutine census) are validated by TLC against the statement layer',
          'PostCancelReject, WaitOnlyWhenQuiet as invariants, NothingAfterWait as action property, ProducersReleased / WaitReturns (~>) in the model; on the real code: cancellation fired inside each protocol hook, late pushes to every lane must return the context error, Wait must not return while a task runs and must have returned / left no goroutine at the final quiescent state',
          "witnessed schedules only (widened by hook gates, seeded yields, systematic scenario families); bounded model constants as stated", '5/C07'),
  "C08": ('spec/tasklane/TaskLane.tla (+TaskLaneMC, MC_*.cfg, MUT_*.cfg), spec/tasklane/TaskLaneCases.tla',
@@ -103,18 +103,19 @@ P = {
          'TLA+ model of the tasklane protocol with explicit Go channel/select semantics (poll-and-park, rendezvous only with a parked peer, close(done) claiming parked goroutines, timer), one action per select/statement; TLC checks all interleavings incl. cancellation at every point, safety invariants and liveness under weak fairness, and rejects spec mutants; traces of the real TaskLane (verif hooks as event sources and as cancellation gates at every protocol point, quiescence by goroutine census) are validated by TLC against the statement layer',
          'worker survives panics, LastPanicIsOne, StatusBounds for the multi-step Status read, AtRestExact (~ENABLED Internal) in the model (1.4M states); on the real code (-race build): simultaneous typed panics in several rounds with Status pollers, systematic at-rest states (pinned 0 / n-1 / n, every queue size) with exact PendingTask comparison, race detector reports on tasklane.go are violations',
          "witnessed schedules only (widened by hook gates, seeded yields, systematic scenario families); bounded model constants as stated", '5/C14'),
- "C02": ("spec/logger/LogSink.tla (+LogSinkMC), spec/logger/LogSinkCases.tla",
+ "C02": ("spec/logger/LogSink.tla (+LogSinkMC), spec/logger/LogSinkCases.tla, proofs/logger/LogSinkProof.tla",
          "TLA+ model of Handle(): level gate, pooled buffer, format, shared mutex (pointer copied by clone), Write begin/end, free; "
          "TLC checks NoOverlap / OwnLine / ExactlyOnce / PoolSafe for all interleavings of 3 goroutines x 2 records and rejects 3 "
-         "mutants; traces recorded at the real destination writer (dwelling inside Write) are judged by TLC with the same statement",
+         "mutants; the TLA+ proof system proves one-writer-at-a-time / OwnLine / PoolSafe for ANY goroutines, records and derived handlers "
+         "(inductive invariant, 38 obligations); traces recorded at the real destination writer (dwelling inside Write) are judged by TLC with the same statement",
          "all interleavings of the bounded model; every Write call of real concurrent runs (3 handlers, derived loggers, sizes beyond the "
          "16 KiB pool limit, thresholds) must be alone on the destination, carry exactly the line the record gives when logged alone, "
          "once per enabled record and never for disabled ones",
          "witnessed schedules only (dwell inside Write makes overlap near-certain if serialisation is missing); timestamps masked", "5/C02"),
- "C19": ("spec/util/Progress.tla, spec/util/ProgressCases.tla",
+ "C19": ("spec/util/Progress.tla, spec/util/ProgressCases.tla, proofs/util/ProgressProof.tla",
          "TLA+ model of Write (wrapped writer reports any k<=n with or without error, size update, non-blocking offer that succeeds only "
          "against a parked receiver) and Close (blocking send + close) against an arbitrarily scheduled consumer; TLC checks 6 invariants "
-         "over all schedules and rejects the blocking-send mutant; traces of the real writer with scripted wrapped writers and consumers "
+         "over all schedules and rejects the blocking-send mutant; the TLA+ proof system proves the same invariants for ANY number of writes and byte counts (inductive invariant, 30 obligations); traces of the real writer with scripted wrapped writers and consumers "
          "are judged by TLC; stalls are decided on stable states",
          "all schedules of the bounded model (<=4/6 writes, every short/failed count); on real code: Size() = sum of reported counts, "
          "received values non-decreasing and each a total, writer never parked inside Write (goroutine census), Close delivers the total "
